@@ -254,6 +254,48 @@ def pad(R, ctx):
         R.ob(rid, "write_token_options|pad-before-content", ok, ctx.where(fn), "padding precedes the content write (events %s): %s" % (ev, ok))
 
 
+def line_totals(R, ctx):
+    """utils::lines::block_total on abstract blocks whose last token spans several lines (finite-domain evaluation)."""
+    from .. import peval
+    from ..peval import Enum, Struct, NONE, some, make
+    rid = "C04.total"
+    lib = ctx.lib
+    R.rule(rid, "lines::block_total (the amount by which the bundler shifts what follows an inlined module), evaluated from its typed tree on a "
+                "block whose last token starts on line 2, spans 0 or 2 further lines (a long string) and carries trailing trivia that the parser "
+                "recorded on the line where the token ENDS: the total is the recorded line of the last trailing trivia plus the line breaks "
+                "inside it -- not the token's first line plus some count (the module would be counted too short and every later line of the "
+                "bundle shifted by too little)")
+    fn = lib.fn("utils::lines::block_total")
+    if not R.require(rid, "anchor", fn is not None, "", "utils::lines::block_total not found"):
+        return
+    BLOCK, BT = "nodes::block::Block", "nodes::block::BlockTokens"
+    TOK, TRV, KIND = "nodes::token::Token", "nodes::token::Trivia", "nodes::token::TriviaKind"
+    bt = lib.adts.get(BT)
+    have = {f["name"] for v in bt["variants"] for f in v["fields"]} if bt else set()
+    if not R.require(rid, "anchor:BlockTokens.final_token", "final_token" in have, ctx.adt_where(BT) if bt else "", "fields: %s" % sorted(have)):
+        return
+    n, bad = 0, []
+    for k in (0, 2):
+        content = "[[" + "x\n" * k + "]]"
+        end = 2 + k
+        for label, trivia in (("newline", [("Whitespace", end, "\n")]),
+                              ("comment+blank-lines", [("Comment", end, "--c"), ("Whitespace", end, "\n\n")]),
+                              ("two-whitespaces", [("Whitespace", end, "\n"), ("Whitespace", end + 1, "\n")])):
+            tv = [Struct(TRV, {"position": Enum(POSITION, "LineNumber", {"line_number": ln, "content": c}), "kind": Enum(KIND, kind)}) for kind, ln, c in trivia]
+            tok = Struct(TOK, {"position": Enum(POSITION, "LineNumber", {"line_number": 2, "content": content}), "leading_trivia": [], "trailing_trivia": tv})
+            block = make(lib, BLOCK, {"tokens": some(make(lib, BT, {"final_token": some(tok)}))})
+            pe = peval.PEval(lib, ctx.an)
+            try:
+                v = pe.call_fn(fn, [block])
+            except peval.OutOfFuel:
+                v = None
+            n += 1
+            want = trivia[-1][1] + trivia[-1][2].count("\n")
+            if v != want:
+                bad.append("last token on lines 2..%d followed by %s: block_total = %s, expected %d %s" % (end, label, v, want, pe.unknown_reasons[:1] if not isinstance(v, int) else ""))
+    R.ob(rid, "block_total|multi-line-last-token", not bad, ctx.where(fn), "all %d layouts give the line where the block's text ends" % n if not bad else bad[0])
+
+
 def run(R, ctx):
     R.explanation = (
         "Static rules on the line-keeping mechanism: coverage of shift_token_line over every token slot of the AST type graph, "
@@ -268,3 +310,4 @@ def run(R, ctx):
     bundle_insert(R, ctx)
     count(R, ctx)
     pad(R, ctx)
+    line_totals(R, ctx)
